@@ -219,6 +219,14 @@ func c12Invariants(c *mon.Ctx, g lint.Registry, names []string, inReg map[string
 		if !knownSources[m.Source] {
 			c.V("bad-source|"+n, fmt.Sprintf("%s has source %q which is not a declared lint source", n, m.Source), n, nil, nil)
 		}
+		// ... and known to the library's own parsers, not only to this harness's list of constants
+		var viaString lint.LintSource
+		viaString.FromString(string(m.Source))
+		var viaJSON lint.LintSource
+		errJSON := viaJSON.UnmarshalJSON([]byte(strconv.Quote(string(m.Source))))
+		if viaString != m.Source || errJSON != nil || viaJSON != m.Source {
+			c.V("source-unknown-to-library|"+string(m.Source), fmt.Sprintf("%s has source %q, which the library's own LintSource parsers do not know (FromString -> %q, UnmarshalJSON -> %q, %v)", n, m.Source, viaString, viaJSON, errJSON), n, nil, nil)
+		}
 		if !f.impl {
 			c.V("nil-implementation|"+n, n+" has a nil constructor or instance", n, nil, nil)
 		}
@@ -294,6 +302,7 @@ func c12Solo(c *mon.Ctx) {
 		}
 		c12Invariants(c, g, names, in, when)
 	}
+	pass("before any addition") // also warms whatever the registry caches on first use
 	before := len(g.Names())
 	adds := []func(){
 		func() {
@@ -311,10 +320,25 @@ func c12Solo(c *mon.Ctx) {
 		func() { // sorts before every existing name
 			lint.RegisterCertificateLint(&lint.CertificateLint{LintMetadata: lint.LintMetadata{Name: "e_000_verif_c12_first", Description: "verif addition", Citation: "verif", Source: lint.Community}, Lint: func() lint.CertificateLintInterface { return probeCert{} }})
 		},
+		// second wave: every kind again, now that every listing has been read at least once
+		func() {
+			lint.RegisterOcspResponseLint(&lint.OcspResponseLint{LintMetadata: lint.LintMetadata{Name: "w_verif_c12_ocsp2", Description: "verif addition", Citation: "verif", Source: lint.MozillaRootStorePolicy}, Lint: func() lint.OcspResponseLintInterface { return probeOCSP{} }})
+		},
+		func() {
+			lint.RegisterRevocationListLint(&lint.RevocationListLint{LintMetadata: lint.LintMetadata{Name: "n_verif_c12_crl2", Description: "verif addition", Citation: "verif", Source: lint.RFC6962}, Lint: func() lint.RevocationListLintInterface { return probeCRL{} }})
+		},
+		func() {
+			lint.RegisterCertificateLint(&lint.CertificateLint{LintMetadata: lint.LintMetadata{Name: "e_verif_c12_cert2", Description: "verif addition", Citation: "verif", Source: lint.CABFEVGuidelines}, Lint: func() lint.CertificateLintInterface { return probeCert{} }})
+		},
 	}
 	for k, a := range adds {
 		a()
 		pass(fmt.Sprintf("after addition %d", k+1))
+		for _, l := range []int{len(g.CertificateLints().Lints()) + len(g.RevocationListLints().Lints()) + len(g.OcspResponseLints().Lints())} {
+			if l != before+k+1 {
+				c.V("addition-not-in-listing", fmt.Sprintf("after %d additions the three Lints() listings hold %d lints, want %d", k+1, l, before+k+1), "", nil, nil)
+			}
+		}
 		if len(g.Names()) != before+k+1 {
 			c.V("addition-not-listed", fmt.Sprintf("after %d additions Names() has %d entries, want %d", k+1, len(g.Names()), before+k+1), "", nil, nil)
 		}
@@ -370,7 +394,7 @@ func init() {
 			if r.SetSize("lints_checked") < 100 {
 				gates = append(gates, "fewer than 100 lints checked")
 			}
-			if r.Counters["invariant_passes"] < 7 {
+			if r.Counters["invariant_passes"] < 11 {
 				gates = append(gates, "the additions scenario (own process) did not complete")
 			}
 			if n, _ := r.Notes["census_sites"].(float64); n < 100 {
